@@ -543,6 +543,11 @@ func (i *interpreter) numError(err error) value {
 
 // fmtArg converts an interpreter value into something fmt can print.
 func (i *interpreter) fmtArg(v value) (interface{}, bool) {
+	i.fmtDepth++
+	defer func() { i.fmtDepth-- }()
+	if i.fmtDepth > 6 {
+		return "<…>", true
+	}
 	switch v := v.(type) {
 	case iface:
 		if v.t == nil {
@@ -984,4 +989,30 @@ func init() {
 		}
 		return extTrim(true, true)(fr, []value{args[0], "\t\n\v\f\r "})
 	}
+}
+
+// ---- context ----
+
+type nativeFunc struct {
+	name string
+	f    func(fr *frame, args []value) value
+}
+
+func init() {
+	externals["context.WithValue"] = func(fr *frame, args []value) value {
+		pkg := fr.i.prog.ImportedPackage("context")
+		ty := pkg.Type("valueCtx")
+		if ty == nil {
+			panic(unsupported("context.valueCtx not found"))
+		}
+		cell := value(structure{args[0], args[1], args[2]})
+		return iface{t: types.NewPointer(ty.Type()), v: &cell}
+	}
+	nopCancel := &nativeFunc{name: "context.cancel", f: func(fr *frame, args []value) value { return nil }}
+	// cancellation is outside every claim: derived contexts are their parents
+	externals["context.WithCancel"] = func(fr *frame, args []value) value { return tuple{args[0], nopCancel} }
+	externals["context.WithCancelCause"] = func(fr *frame, args []value) value { return tuple{args[0], nopCancel} }
+	externals["context.WithTimeout"] = func(fr *frame, args []value) value { return tuple{args[0], nopCancel} }
+	externals["context.WithDeadline"] = func(fr *frame, args []value) value { return tuple{args[0], nopCancel} }
+	externals["context.Cause"] = func(fr *frame, args []value) value { return iface{} }
 }
